@@ -1,30 +1,17 @@
 (* C05/C06/C10: the walks of the optimizer and of the names validator satisfy, node by node, the equation that the arm selected from the regenerated tables prescribes *)
 From Flocq Require Import Core BinarySingleNaN.
 Require Import ZArith NArith Bool List Arith Lia. Import ListNotations.
-Require Import F64 Dec Types Generic Lang Opt IO GenStruct.
+Require Import F64 Dec Types Generic Lang Opt IO WalkTypes WalkRead GenOptArms.
 
 (* Reading the arms of the three tree walks (Gen/GenStruct.v) the way Rust reads `match expression`: the first arm, in source order, whose node kind and guard fit.
    The glossary (what each body text does, in terms of the recursive calls and of evaluate-and-replace) is the trusted part; the theorems say that the
    hand-written walks of the model satisfy, at every node, exactly the equation the selected arm prescribes. *)
-Definition node_of (e:expr) : gnode := match e with EUn _ _ => NUnary | EBin _ _ _ => NBinary | ETer _ _ _ _ => NTernary | EArr _ => NArray | ECall _ _ => NCall | EVar _ => NVariable | ELit _ => NLiteral end.
-Definition node_eqb (a b:gnode) : bool := match a, b with NUnary, NUnary | NBinary, NBinary | NTernary, NTernary | NArray, NArray | NCall, NCall | NVariable, NVariable | NLiteral, NLiteral | NAnyOther, NAnyOther => true | _, _ => false end.
-Definition guard_holds (g:gguard) (e:expr) : bool :=
-  match g, e with
-  | GNone, _ => true
-  | GAllLiteral, EArr es => forallb Generic.is_lit es
-  | GAllLiteral, ECall _ ps => forallb Generic.is_lit ps
-  | GIsIfThen, ECall n _ => leqb n if_then_name
-  | _, _ => false end.
-Fixpoint arm_for (arms:list (gnode * gguard * gwalk)) (e:expr) : option gwalk :=
-  match arms with [] => None | (n, g, b) :: t => if (node_eqb n (node_of e) || node_eqb n NAnyOther) && guard_holds g e then Some b else arm_for t e end.
-
 Section Walks.
 Variable E : env.
 Notation fold := (Generic.fold as_bool is_empty un binop E).
 Notation fold_list := (Generic.fold_list as_bool is_empty un binop E).
 Notation evalfold := (Generic.evalfold as_bool is_empty un binop E).
 Notation tt := Generic.tt. Notation tt_list := Generic.tt_list.
-Notation check := (Generic.check E). Notation check_list := (Generic.check_list E).
 
 (* `a?; b?` on sub-trees: stop at the first error, leaving what follows untouched *)
 Definition seq2 (k:expr -> expr -> expr) (l r:expr) : Generic.status * expr * bool :=
@@ -79,25 +66,8 @@ Proof.
     + reflexivity.
 Qed.
 
-Definition check_body (b:gwalk) (e:expr) : option (option Generic.cerr) :=
-  match b, e with
-  | VRecRight, EUn _ r => Some (check r)
-  | VRecLeftThenRight, EBin _ l r => Some (match check l with None => check r | x => x end)
-  | VRecLeftThenMiddleThenRight, ETer _ l m r => Some (match check l with None => (match check m with None => check r | x => x end) | x => x end)
-  | VRecAllInOrder, EArr es => Some (check_list es)
-  | VVariableExistsElseMissingVariable, EVar n => Some (if var_exists E n then None else Some (Generic.MissingVariable n))
-  | VCallExistsThenParamsElseNamedError, ECall n ps =>
-      Some (match fn_exists E n (length ps) with Exists _ => check_list ps | NotFound => Some (Generic.MissingFunction n) | WrongArity => Some (Generic.ParamCountMismatch n (length ps)) end)
-  | VOk, ELit _ => Some None
-  | _, _ => None end.
-Theorem check_is_the_table : forall e, Some (check e) = match arm_for gen_check_names_arms e with Some b => check_body b e | None => None end.
-Proof.
-  destruct e as [o r|o l r|o l m r|es|v|n|n ps]; [reflexivity|reflexivity|reflexivity| | reflexivity|reflexivity| ].
-  - cbn. rewrite Generic.check_list_fix. reflexivity.
-  - cbn. rewrite Generic.check_list_fix. reflexivity.
-Qed.
 (* the loop of `optimize`: transform, fold, repeat while something was found; stop with the error and the partially rewritten tree *)
-Theorem optimize_loop_is_the_model : gen_optimize_loop_as_modelled = true /\ gen_fold_constants_ends_ok = true /\ gen_expressions_are_const_as_modelled = true /\ gen_check_expressions_as_modelled = true /\
+Theorem optimize_loop_is_the_model : gen_optimize_loop_as_modelled = true /\ gen_fold_constants_ends_ok = true /\ gen_expressions_are_const_as_modelled = true /\
   forall k e, Generic.optimize as_bool is_empty un binop E (S k) e =
     (let '(e1, f1) := tt e in let '(st, e2, f2) := fold e1 in
      match st with Generic.SErr x => (Generic.OErr x, e2) | Generic.SOk => if f1 || f2 then Generic.optimize as_bool is_empty un binop E k e2 else (Generic.OOk, e2) end).
